@@ -525,6 +525,13 @@ def budget_stream(chk, quick=True, R=None, rng=None):
     progs = []
     for i in range(40 if quick else 600):
         progs.append(("unsettled-block", c17_gen.gen_budget_case(rng), rng.chance(0.5), rng.chance(0.5)))
+    # slowly settling blocks: the class asm_block_budget_coupling is a genuine defect of the implementation (whether a
+    # guessing pass gets a block's value or Unknown depends on the budget); the family runs once the class is registered
+    coupling = known_class("asm_block_budget_coupling")
+    if coupling:
+        progs.append(("slow-block", c17_gen.SLOW_BLOCK_WITNESS, True, True))
+        for i in range(40 if quick else 600):
+            progs.append(("slow-block", c17_gen.gen_slow_block_case(rng), rng.chance(0.5), rng.chance(0.5)))
     want = 8 if quick else 300
     tries = 0
     while want and tries < 40 * (40 if quick else 400):
@@ -562,7 +569,10 @@ def budget_stream(chk, quick=True, R=None, rng=None):
                 bad = ("assembles with budget %d but %s with the larger budget %d" % (
                     BUDGETS[first], "fails" if row[j][0] != "OK" else "gives different bits or symbols", BUDGETS[j]), BUDGETS[first], BUDGETS[j])
                 break
-        if bad:
+        if bad and fam == "slow-block" and coupling and row[BUDGETS.index(bad[2])][0] == "OK" and bad[1] != bad[2]:
+            chk.known(coupling, "slowly settling asm block: assembles with budget %d, different bits with budget %d" % (bad[1], bad[2]))
+            dist["known_" + coupling] = dist.get("known_" + coupling, 0) + 1
+        elif bad:
             chk.violation("the iteration budget changes WHAT a program with asm blocks assembles to (%s): %s" % (fam, bad[0]),
                           dict(rep, budget_small=bad[1], budget_large=bad[2], impl_small=raw[BUDGETS.index(bad[1])][:1200], impl_large=raw[BUDGETS.index(bad[2])][:1200]))
     chk.count("budget_sweep_asm_blocks", len(runs), programs=len(progs), **dist)
